@@ -18,7 +18,7 @@ EXPLANATION = (
     "every propagation of a child's signal; constant-expression witnesses (_Static_assert over janet's headers) for "
     "mask = 1 << signal, status == signal numbering and name-table sizes; who-may-write of the status bits.  "
     "Decides these structural agreements; ordering of values and cleanup semantics are not decided.")
-ASSUMPTIONS = ["default Linux configuration", "boot.janet (try/defer/generators) is not analysed"]
+ASSUMPTIONS = ["default Linux configuration", "of boot.janet only the status tests of the fiber-wrapping macros are analysed (C05-CLEANUPMASK); generators and loop :generate are not"]
 
 
 def eval_pred(e, var, val):
@@ -478,3 +478,5 @@ def run(chk):
     _boundary_rule(chk, prog)
     _envshare_rule(chk, prog)
     _childlink_rule(chk, prog)
+    from rules import c05_boot
+    c05_boot.run(chk, prog)
